@@ -166,7 +166,7 @@ func (in *@Type) DeepCopyIntoAs(out *@OriginType)  {
 							"fieldDoc":  snippet.Comment(strings.Join(fieldDoc, "\n")),
 							"fieldName": snippet.ID(fieldName),
 							"fieldType": snippet.ID(replaceTo[0]),
-							"fieldTag":  snippet.ID(tag),
+							"fieldTag":  snippet.Block(tag),
 						})
 
 						for code := range snippet.Fragments(ctx, s) {
@@ -185,7 +185,7 @@ func (in *@Type) DeepCopyIntoAs(out *@OriginType)  {
 						"fieldDoc":  snippet.Comment(strings.Join(fieldDoc, "\n")),
 						"fieldName": snippet.ID(fieldName),
 						"fieldType": snippet.ID(f.Type()),
-						"fieldTag":  snippet.ID(tag),
+						"fieldTag":  snippet.Block(tag),
 					})
 
 					for code := range snippet.Fragments(ctx, s) {
